@@ -432,11 +432,20 @@ def known_match(case: dict, detail: Any) -> Optional[str]:
         if re.search(r'\d{10,}', case.get('xml', '') + str(case.get('value', ''))):
             return 'C11-F4'
         return None
-    wh = detail.get('where') or []
+    wh_all = detail.get('where') or []
+    origin = next((w for w in wh_all if w.startswith('@')), '')
+    wh = [w for w in wh_all if not w.startswith('@')]
+    if exc == 'ValueError' and detail.get('msg') == 'embedded null byte':
+        data = case_bytes(case)
+        if data is not None and b'\x00' in data and not data.lstrip(b' \t\r\n\xef\xbb\xbf').startswith(b'<'):
+            return 'C11-F10'
+        return None
     if exc == 'ValueError':
         m = re.match(r"wrong format for (?:reference name|prefixed QName) '(.*)'$", detail.get('msg') or '')
         if m and re.search(r'''xsi:type=(["'])\s*%s\s*\1''' % re.escape(m.group(1)), case.get('xml', '')):
             return 'C11-F9'
+        if m and origin == '@elementpath/namespaces.py get_expanded_name' and re.search(r'xsi:type\s*=', case.get('xml', '')):
+            return 'C11-F9'     # (value with characters that repr() escapes)
     if wh and re.search(r'validators/assertions\.py:\d+ __call__$', wh[-1]) and \
             exc in ('InvalidOperation', 'OverflowError', 'ZeroDivisionError', 'DivisionByZero', 'DecimalException', 'ArithmeticError'):
         return 'C11-F8'
@@ -448,7 +457,7 @@ def known_match(case: dict, detail: Any) -> Optional[str]:
                 for _ in ET.iterparse(io.BytesIO(data), events=('start',)):
                     pass
             except (LookupError, ValueError) as e:
-                if type(e).__name__ == exc and str(e)[:300] == detail.get('msg'):
+                if type(e).__name__ == exc and str(e)[:100000] == detail.get('msg'):
                     return 'C11-F6'
             except Exception:  # noqa
                 pass
@@ -461,11 +470,11 @@ def known_match(case: dict, detail: Any) -> Optional[str]:
             if data is not None and root_namespace(data) == m.group(1):
                 return 'C11-F7'
             return None
-        m = re.search(r"global component '([^']*)' not found", msg)
-        if m:
-            local = m.group(1).split('}')[-1].split(':')[-1]
-            if re.search(r'''xsi:type=["'][^"']*%s\s*["']''' % re.escape(local), case.get('xml', '')):
-                return 'C11-F5'
+        if 'global component' in msg and 'not found' in msg and \
+                any(re.search(r'validators/groups\.py:\d+ check_dynamic_context$', w) for w in wh) and \
+                re.search(r'xsi:type\s*=', case.get('xml', '')):
+            # identified by call site: the look-up of the xsi:type of a CHILD element in XsdGroup.raw_decode
+            return 'C11-F5'
     return None
 
 
@@ -681,19 +690,24 @@ def call(fn: Callable[[], Any]) -> dict:
         r = fn()
         return {'class': 'verdict', 'value': r if isinstance(r, bool) else None}
     except xmlschema.XMLSchemaException as e:
-        return {'class': 'library', 'exc': type(e).__name__, 'msg': str(e)[:300], 'where': where(e),
+        return {'class': 'library', 'exc': type(e).__name__, 'msg': str(e)[:100000], 'where': where(e),
                 'validation_error': isinstance(e, xmlschema.XMLSchemaValidationError)}
     except BaseException as e:  # noqa
         if isinstance(e, (KeyboardInterrupt, SystemExit)):
             raise
-        return {'class': 'foreign', 'exc': type(e).__name__, 'msg': str(e)[:300], 'where': where(e)}
+        return {'class': 'foreign', 'exc': type(e).__name__, 'msg': str(e)[:100000], 'where': where(e)}
 
 
 def where(e: BaseException) -> list[str]:
     """innermost frames of the traceback that lie in the package under check (file:line function)"""
     import traceback
-    fr = [f for f in traceback.extract_tb(e.__traceback__) if 'xmlschema' in f.filename]
-    return ['%s:%d %s' % (f.filename.split('xmlschema/', 1)[-1], f.lineno, f.name) for f in fr[-4:]]
+    tb = traceback.extract_tb(e.__traceback__)
+    fr = [f for f in tb if 'xmlschema' in f.filename]
+    out = ['%s:%d %s' % (f.filename.split('xmlschema/', 1)[-1], f.lineno, f.name) for f in fr[-4:]]
+    if tb:
+        # innermost frame overall (may lie outside the package), marked with '@'
+        out.append('@%s %s' % ('/'.join(tb[-1].filename.split('/')[-2:]), tb[-1].name))
+    return out
 
 
 def measure_d0(schema: Any) -> Optional[int]:
